@@ -110,6 +110,56 @@ def r1_keys(ctx):
                 "rank-0 tensor from a scalar root", text_="Tensor.fromYAMLfile rank-0")
 
 
+def _nonempty_guard(gs, name):
+    """The guards establish that list `name` is not empty."""
+    for t, pol in gs:
+        tt = text(t).replace(" ", "")
+        if (tt in ("len(%s)==0" % name, "0==len(%s)" % name) and not pol) or \
+                (tt in ("len(%s)>0" % name, "len(%s)!=0" % name, name,
+                        "0<len(%s)" % name, "len(%s)" % name) and pol) or \
+                (tt == "not%s" % name and not pol):
+            return True
+    return False
+
+
+def _never_empty(ctx, f):
+    """_makeFiber builds sub-fibers only for sub-nests that keep at least one
+    entry: every `return Fiber(X, ...)` needs X known non-empty, either by an
+    emptiness test on X that leaves first, or because X is an unfiltered
+    comprehension over a list known non-empty."""
+    from ..cfg import guards
+    for r in pat.returns(f):
+        v = r.value
+        if not (isinstance(v, ast.Call) and text(v.func) in ("Fiber", "cls") and v.args
+                and isinstance(v.args[0], ast.Name)):
+            continue
+        x = v.args[0]
+        gs = guards(r, asserts=False)
+        ok = _nonempty_guard(gs, x.id)
+        if not ok:
+            facts, _ = ctx.ty.facts_at(f, x.id, x)
+            ok = bool(facts)
+            for fa in facts:
+                e = fa.value if fa.kind == "expr" else None
+                if isinstance(e, ast.ListComp) and len(e.generators) == 1 and \
+                        not e.generators[0].ifs and \
+                        isinstance(e.generators[0].iter, ast.Name) and \
+                        _nonempty_guard(guards(fa.stmt, asserts=False) + gs,
+                                        e.generators[0].iter.id):
+                    continue
+                ok = False
+        if ok:
+            ctx.ok("C13.R2", f, r, "a fiber is built only from a non-empty "
+                   "coordinate list (all-default sub-nests yield None)",
+                   text_="_makeFiber never empty")
+        else:
+            ctx.bad("C13.R2", f, r, "_makeFiber can return a fiber with no "
+                    "elements (`%s` may be empty here: every sub-nest was "
+                    "squeezed to None): an all-default block of a deeper nest "
+                    "is stored as an explicit empty sub-fiber instead of being "
+                    "left out" % x.id, text_="_makeFiber never empty")
+
+
 def r2_default(ctx):
     f = ctx.method("Fiber", "_makeFiber")
     dp = "default"
@@ -147,6 +197,7 @@ def r2_default(ctx):
     else:
         ctx.bad("C13.R2", f, f.node, "_makeFiber no longer sets shape = "
                 "len(payload_list)", text_="_makeFiber shape")
+    _never_empty(ctx, f)
     f = ctx.method("Fiber", "fromUncompressed")
     calls = [c for c in f.own_nodes() if isinstance(c, ast.Call)]
     mk = [c for c in calls if text(c.func) == "Fiber._makeFiber"]
